@@ -293,6 +293,43 @@ ImplHasLegalMoves(b, EpFix) ==
   \E m \in ImplGenPawn(b) \cup ImplGenPieces(b) : ImplIsLegal(b, m, "default", EpFix)
 
 (***************************************************************************)
+(* Move validation as the code does it (moves/base.rs):                    *)
+(* Move::is_well_formed is Rules!WellFormed (already a transcription);     *)
+(* do_is_move_semilegal below.  The strictly-between tables are exact on   *)
+(* aligned pairs; on the other pairs the generated tables hold leftovers   *)
+(* (known finding F1) - modelled as the parameter `junk`: the obligation   *)
+(* is checked for junk = {} and junk = Sq, i.e. it does not depend on them *)
+(* because a well-formed bishop/rook/queen move only ever asks about       *)
+(* aligned pairs.                                                          *)
+(***************************************************************************)
+ImplBishopStrict(s, d, junk) == IF SameDiag(s, d) THEN Between(s, d) ELSE junk
+ImplRookStrict(s, d, junk) == IF SameLine(s, d) THEN Between(s, d) ELSE junk
+CastlingPass(color, side) ==
+  LET r == HomeRank(color) IN IF side = SideK THEN {MkSq(5, r), MkSq(6, r)} ELSE {MkSq(1, r), MkSq(2, r), MkSq(3, r)}
+
+ImplSemiValidate(b, m, junk) ==
+  LET color == b.r.side  opp == Other(color)  k == m[1]  cell == m[2]  s == m[3]  d == m[4]
+      dc == b.r.cells[d]  delta == 8 * Fwd(color)  pc == PieceOf(cell) IN
+  IF k = KNull \/ b.r.cells[s] # cell \/ ColorOf(cell) # color \/ ColorOf(dc) = color THEN FALSE
+  ELSE CASE pc = P ->
+              (CASE k = KDouble -> b.r.cells[s + delta] = 0 /\ dc = 0
+                 [] k = KEnpassant -> b.r.ep # -1 /\ (b.r.ep = s + 1 \/ b.r.ep = s - 1) /\ d = b.r.ep + delta
+                 [] OTHER -> (FileOf(d) = FileOf(s)) = (dc = 0))
+         [] pc = K ->
+              (CASE k = KCastleK -> /\ HasRight(b.r.castling, color, SideK) /\ b.all \cap CastlingPass(color, SideK) = {}
+                                    /\ ~ImplIsAttacked(b, s, opp) /\ ~ImplIsAttacked(b, s + 1, opp)
+                 [] k = KCastleQ -> /\ HasRight(b.r.castling, color, SideQ) /\ b.all \cap CastlingPass(color, SideQ) = {}
+                                    /\ ~ImplIsAttacked(b, s, opp) /\ ~ImplIsAttacked(b, s - 1, opp)
+                 [] OTHER -> TRUE)
+         [] pc = N -> TRUE
+         [] pc = B -> ImplBishopStrict(s, d, junk) \cap b.all = {}
+         [] pc = R -> ImplRookStrict(s, d, junk) \cap b.all = {}
+         [] pc = Q -> IF SameDiag(s, d) THEN ImplBishopStrict(s, d, junk) \cap b.all = {}
+                      ELSE ImplRookStrict(s, d, junk) \cap b.all = {}
+
+\* every well-formed move value (any colour, any man), indexed by source square and man - evaluated once
+
+(***************************************************************************)
 (* The refinement obligations between the two layers (checked by TLC on    *)
 (* bounded models, see MC_Impl.tla).                                       *)
 (***************************************************************************)
@@ -307,4 +344,15 @@ Obl_Legal(b, EpFix) ==     \* C01 / C06 / C07 at the design level
   /\ ImplLegalGen(b, EpFix) = Legal(b.r)
   /\ ImplHasLegalMoves(b, EpFix) = (Legal(b.r) # {})
   /\ \A m \in PseudoLegal(b.r) : ImplIsLegal(b, m, "nil", EpFix) = LeavesKingSafe(b.r, m)
+WFBy == [s \in Sq |-> [c \in 1..12 |-> {m \in (1..9) \X {c} \X {s} \X Sq : WellFormed(m)}]]
+AllWellFormed == UNION {WFBy[s][c] : s \in Sq, c \in 1..12}
+TwinCell(c) == IF c <= 6 THEN c + 6 ELSE c - 6
+Obl_SemiValidate(b) ==     \* C06 (validator side) at the design level
+  LET PL == PseudoLegal(b.r)
+      \* every well-formed move of the man that stands on its source square, of its colour-flipped twin, and -
+      \* from one empty square - of every man
+      cand == UNION {WFBy[s][b.r.cells[s]] \cup WFBy[s][TwinCell(b.r.cells[s])] : s \in b.all}
+              \cup (IF b.all = Sq THEN {} ELSE LET e == CHOOSE e \in Sq \ b.all : TRUE IN UNION {WFBy[e][c] : c \in 1..12})
+  IN /\ PL \subseteq cand
+     /\ \A m \in cand : \A junk \in {{}, Sq} : ImplSemiValidate(b, m, junk) = (m \in PL)
 =============================================================================
